@@ -133,8 +133,14 @@ func (s *SessionState) GetClaim(claim string) []string {
 	case "id_token":
 		return []string{s.IDToken}
 	case "created_at":
+		if s.CreatedAt == nil {
+			return []string{}
+		}
 		return []string{s.CreatedAt.String()}
 	case "expires_on":
+		if s.ExpiresOn == nil {
+			return []string{}
+		}
 		return []string{s.ExpiresOn.String()}
 	case "refresh_token":
 		return []string{s.RefreshToken}
